@@ -23,24 +23,27 @@ Definition probe_defs : list (list op * list str) :=
     ([(s_db, [110], 4)], []);        (* CREATE TABLE db.n<k> *)
     ([(s_db2, [100], 5)], []);       (* DROP TABLE db2.d<k> *)
     ([(s_db, s_t, 12)], []);         (* CREATE INDEX i<k> ON db.t (b) *)
-    ([(s_db, [], 25)], []) ].        (* CREATE USER x<k>@localhost *)
+    ([(s_db, [], 25)], []);          (* CREATE USER x<k>@localhost *)
+    ([(s_db, [109;97], 5); (s_db, [109;98], 5)], []) ].   (* DROP TABLE db.ma, db.mb : every target needs DROP *)
 
-Definition probe_users : list str := [[117;49]; [117;50]; [117;51]].
+(* what the engine executed, in order: statements run by root and probe statements run as an account (index into
+   probe_defs, observed allowed flag); probes do not change the access-control state *)
+Inductive item : Type := IStmt (s : stmt) | IProbe (u : str) (i : N) (obs : bool).
 
-Definition all_probes : list (str * (list op * list str)) :=
-  flat_map (fun u => map (fun pd => (u, pd)) probe_defs) probe_users.
+Definition case : Type := list item.
 
-(* history; observed allowed flag per probe, in the order of all_probes *)
-Definition case : Type := (list stmt * list bool)%type.
-
-Fixpoint cmp (s : state) (ps : list (str * (list op * list str))) (obs : list bool) : bool :=
-  match ps, obs with
-  | [], [] => true
-  | (u, (ops, vis)) :: ps', o :: obs' => Bool.eqb (allowed_stmt s u ops vis) o && cmp s ps' obs'
-  | _, _ => false
+Fixpoint go (s : state) (c : list item) : bool :=
+  match c with
+  | [] => true
+  | IStmt st :: c' => go (exec s st) c'
+  | IProbe u i obs :: c' =>
+      match nth_error probe_defs (N.to_nat i) with
+      | Some (ops, vis) => Bool.eqb (allowed_stmt s u ops vis) obs && go s c'
+      | None => false
+      end
   end.
 
-Definition ok (c : case) : bool := let '(h, obs) := c in cmp (run init h) all_probes obs.
+Definition ok (c : case) : bool := go init c.
 
 Definition mismatches (cs : list (N * case)) : list N :=
   map fst (filter (fun p => negb (ok (snd p))) cs).
